@@ -788,6 +788,14 @@ func (e *Engine) havocLocs(st *State, locs []Loc) {
 			continue
 		}
 		h := e.H(st, l.Class, l.Sort)
+		if l.All {
+			nh := tb.Fresh("hv_all_"+l.Class, l.Sort)
+			e.setH(st, l.Class, nh)
+			if ax := e.rangeAxiom(l.Class, nh); ax != nil {
+				e.assumeQuiet(st, ax)
+			}
+			continue
+		}
 		switch {
 		case l.Idx == nil:
 			nv := tb.Fresh("hv_"+l.Class, l.Sort.ElemSort())
